@@ -11,11 +11,12 @@ pub struct LogState {
     pub signature: u64,
     pub events: u64,
     pub keep: bool,
+    pub echo: bool,
     pub lines: Vec<String>,
 }
 
 static LOG: Lazy<Mutex<LogState>> = Lazy::new(|| {
-    Mutex::new(LogState { seq: 0, digest: 0xcbf2_9ce4_8422_2325, signature: 0xcbf2_9ce4_8422_2325, events: 0, keep: false, lines: Vec::new() })
+    Mutex::new(LogState { seq: 0, digest: 0xcbf2_9ce4_8422_2325, signature: 0xcbf2_9ce4_8422_2325, events: 0, keep: false, echo: false, lines: Vec::new() })
 });
 
 #[inline]
@@ -29,6 +30,11 @@ fn mix(h: &mut u64, bytes: &[u8]) {
 /// Keep the text of every event (for `--trace` / replay files); otherwise only hashes are kept.
 pub fn keep_lines(on: bool) {
     LOG.lock().keep = on;
+}
+
+/// Echo every world-level event to stderr as it happens (debugging a run that never ends).
+pub fn echo(on: bool) {
+    LOG.lock().echo = on;
 }
 
 /// Allocate the next global sequence number without logging anything else.
@@ -55,6 +61,9 @@ pub fn world<F: FnOnce() -> String>(f: F) -> u64 {
     mix(&mut d, &t.to_le_bytes());
     mix(&mut d, s.as_bytes());
     l.digest = d;
+    if l.echo {
+        eprintln!("{} {} {}", seq, t, s);
+    }
     if l.keep {
         l.lines.push(format!("{} {} {}", seq, t, s));
     }
